@@ -1626,17 +1626,25 @@ def part2(run, rng, ntrees, maxdepth, ninputs, tag, sibling_share):
                     cn = "PF%s_%d" % (tag, k)
                     body.append(class_src(cn, oopts, tmpl % ("x", nm)))
                     plan.append((cn, place, nm))
-        src = HEADER + "".join(body)
-        try:
-            ns = define(src, scratch, "file")
-        except Exception as e:
-            run.violation("class definition with a bare field as when/size/count raised %s" % type(e).__name__,
-                          {"part": "2f", "class_source": src, "error": str(e)[:200]})
-            ns = {}
+        # defined in chunks (a real module file costs the library one source lookup per class, each of which
+        # parses the whole file): every third chunk as a file, the others via exec
+        CHUNK = 12
+        ns = {}
+        src_of = {}
+        for c0 in range(0, len(body), CHUNK):
+            src = HEADER + "".join(body[c0:c0 + CHUNK])
+            try:
+                ns.update(define(src, scratch, "file" if (c0 // CHUNK) % 3 == 0 else "exec"))
+            except Exception as e:
+                run.violation("class definition with a bare field as when/size/count/selector/position raised %s"
+                              % type(e).__name__, {"part": "2f", "class_source": src, "error": str(e)[:200]})
+            for cn, _, _ in plan[c0:c0 + CHUNK]:
+                src_of[cn] = src
         for cn, place, nm in plan:
             cls = ns.get(cn)
             if cls is None:
                 continue
+            src = src_of[cn]
             for _ in range(max(4, ninputs)):
                 raw0, vals = make_input(rng)
                 raw = raw0 + bytes(rng.randrange(256) for _ in range(TAIL + 4))
@@ -1744,6 +1752,22 @@ def replay(run, rec):
             if not same_outcome(want, got):
                 run.violation("compiled expression and eager Python evaluation disagree (replay)",
                               dict(w, expected=show(want), got=show(got)))
+        elif part == "1b" and "raw" in w:
+            import bisturi.structural_fields as bs
+            ns = define(HEADER + w["operand_class"], scratch, "file")
+            cls = [v for k, v in ns.items() if k.startswith("Ops_")][0]
+            cond = bs.normalize_raw_condition_into_a_callable(field_env(cls)[w["field"]])
+            pkt = cls.unpack(w["raw"])
+            v = parsed_values(pkt)[w["field"]]
+            try:
+                got = ("val", cond(pkt=pkt, raw=w["raw"], offset=0))
+            except Exception as e:
+                got = ("exc", type(e))
+            run.case(key="1b:" + w["field"])
+            run.count("replayed")
+            if got[0] != "val" or bool(got[1]) != bool(v):
+                run.violation("a bare field used as a condition does not have the truthiness of its parsed value (replay)",
+                              dict(w, expected_truthiness=bool(v), got=show(got)))
         elif part in ("2", "2f"):
             ns = define(w["class_source"], scratch, "file")
             if "class" in w:
